@@ -88,7 +88,7 @@ MUTANTS: list[tuple[str, str, str, str, list[str]]] = [
     ("c07-no-clamp", "types/base.py", "num = max(0, cls.num_entries.evaluate(context))", "num = cls.num_entries.evaluate(context)", ["C07.R1"]),
     ("c07-drop-context", "types/base.py", "return cls.type._read_array(stream, num, context)", "return cls.type._read_array(stream, num)", ["C07.R2"]),
     ("c07-enum-context", "types/enum.py", "return list(map(cls, cls.type._read_0(stream, context)))", "return list(map(cls, cls.type._read_0(stream)))", ["C07.R2", "C12.R1"]),
-    ("c07-dims", "parser.py", "for count in reversed(counts):", "for count in counts:", ["C07.R7"]),
+    ("c07-dims", "parser.py", "for count in reversed(counts):", "for count in counts:", ["C07.R7", "C07.R22"]),
     ("c07-swallow-eval", "types/base.py", "                if cls.num_entries.expression != \"EOF\":\n                    raise\n", "", ["C07.R6"]),
     ("c09-abs-offset", "types/structure.py", "                offset = struct_start + field.offset\n                stream.seek(offset)", "                offset = field.offset\n                stream.seek(offset)", ["C09.R1"]),
     ("c09-template-abs", "compiler.py", "yield f\"stream.seek(o + {field.offset})\"", "yield f\"stream.seek({field.offset})\"", ["C09.R1", "C09.R4"]),
@@ -101,12 +101,12 @@ MUTANTS: list[tuple[str, str, str, str, list[str]]] = [
     ("c11-proxy-key", "types/structure.py", "                    union_attr = attr or field._name", "                    union_attr = field._name", ["C11.R4"]),
     ("c11-setattr-norebuild", "types/structure.py", "        if attr in self.__class__.lookup:\n", "        if attr in self.__class__.fields and value is not None:\n", ["C11.R2"]),
     # ---- C10 / C12 / C13
-    ("c10-shift-level", "expression.py", "\">>\": 3,", "\">>\": 4,", ["C10.R1"]),
-    ("c10-gt", "expression.py", "self.precedence_levels[o1] >= self.precedence_levels[o2]", "self.precedence_levels[o1] > self.precedence_levels[o2]", ["C10.R2"]),
-    ("c10-sub-swapped", "expression.py", "\"-\": lambda a, b: a - b", "\"-\": lambda a, b: b - a", ["C10.R3"]),
+    ("c10-shift-level", "expression.py", "\">>\": 3,", "\">>\": 4,", ["C10.R1", "C10.R16"]),
+    ("c10-gt", "expression.py", "self.precedence_levels[o1] >= self.precedence_levels[o2]", "self.precedence_levels[o1] > self.precedence_levels[o2]", ["C10.R2", "C10.R16"]),
+    ("c10-sub-swapped", "expression.py", "\"-\": lambda a, b: a - b", "\"-\": lambda a, b: b - a", ["C10.R3", "C10.R16"]),
     ("c10-consts-first", "expression.py", "            elif current_token in context:\n                queue.append(int(context[current_token]))\n            elif current_token in self.cstruct.consts:\n                queue.append(int(self.cstruct.consts[current_token]))",
-     "            elif current_token in self.cstruct.consts:\n                queue.append(int(self.cstruct.consts[current_token]))\n            elif current_token in context:\n                queue.append(int(context[current_token]))", ["C10.R6"]),
-    ("c12-flag-next", "parser.py", "nextval = 2 ** (high_bit + 1)", "nextval = 2 ** high_bit", ["C12.R3"]),
+     "            elif current_token in self.cstruct.consts:\n                queue.append(int(self.cstruct.consts[current_token]))\n            elif current_token in context:\n                queue.append(int(context[current_token]))", ["C10.R6", "C10.R16"]),
+    ("c12-flag-next", "parser.py", "nextval = 2 ** (high_bit + 1)", "nextval = 2 ** high_bit", ["C12.R3", "C12.R16"]),
     ("c12-missing-mask", "types/enum.py", "        new_member._value_ = value\n        return new_member", "        new_member._value_ = value & 0xFFFFFFFF\n        return new_member", ["C12.R2"]),
     ("c12-flag-eq", "types/flag.py", "if isinstance(other, Flag) and other.__class__ is not self.__class__:\n            return False", "if isinstance(other, Flag) and other.__class__ is not self.__class__:\n            return self.value == other.value", ["C12.R4"]),
     ("c12-write-novalue", "types/enum.py", "return cls.type._write(stream, data.value)", "return cls.type._write_array(stream, [data.value])", ["C12.R1"]),
@@ -139,9 +139,9 @@ REVERTS: list[tuple[str, str, list[str]]] = [
     ("revert-F3", "fix: use a unary-minus marker|fix: keep Expression evaluation state local", ["C15.R1"]),  # F8 touched the same lines later: revert both
     ("revert-F2", "fix: name the uint48 type", ["C04.R1", "C20.R5"]),
     ("revert-F10", "fix: allow whitespace between a field name", ["C13.R2"]),
-    ("revert-F8", "fix: use a unary-minus marker", ["C10.R4"]),
+    ("revert-F8", "fix: use a unary-minus marker", ["C10.R4", "C10.R16"]),
     ("revert-F7", "fix: generate a stub for string type aliases", ["C20.R3", "C20.R13"]),
-    ("revert-F1", "fix: rebuild unions through the top-level member", ["C11.R4"]),
+    ("revert-F1", "fix: unions holding a union with a structure member can be parsed again|fix: rebuild unions through the top-level member", ["C11.R4", "C11.R19", "C11.R26"]),  # F39 touched the same lines later: revert both
     ("revert-F5a", "fix: give every element of a default array", ["C14.R2"]),
     ("revert-F9", "fix: record _values/_sizes when a single-char structure", ["C09.R3"]),
     ("revert-F4", "fix: keep rejecting bit field values that overflow a signed storage unit|fix: write bit-field units of signed storage types", ["C06.R5", "C01.R6"]),
@@ -152,7 +152,7 @@ REVERTS: list[tuple[str, str, list[str]]] = [
     ("revert-F15", "fix: start a new compiled read block when a field offset moves backwards|fix: leave structures with byte-based|fix: slice compiled arrays of enums|fix: start a new compiled read block when a field behind", ["C03.R12", "C03.R24"]),
     ("revert-F16", "fix: leave structures with byte-based|fix: slice compiled arrays of enums", ["C03.R13", "C03.R24"]),
     ("revert-F17", "fix: leave structures with byte-based", ["C03.R14", "C03.R24"]),
-    ("revert-F18", "fix: unpack compiled read blocks made of one value", ["C03.R16", "C03.R24"]),
+    ("revert-F18", "fix: unpack the block when an empty packed array slices the unpacked data|fix: unpack compiled read blocks made of one value", ["C03.R16", "C03.R24"]),  # F38 refined the same condition later: revert both
     ("revert-F19", "fix: read char bit fields through their own storage type", ["C03.R17", "C03.R24"]),
     ("revert-F22", "fix: start a new compiled read block when a field offset moves backwards", ["C03.R18", "C03.R24"]),
     ("revert-F20", "fix: keep array sizes that name an earlier field", ["C07.R11", "C10.R8"]),
